@@ -6,7 +6,7 @@ Sampled (this module): real beacon.Handlers in one process under scripted faults
 the logged heads and chains; the logged head vectors are validated against the model by the Lean driver.
 Real timers, goroutine scheduling, the 2-period sync-restart rule and gRPC are exercised, not proved.
 """
-import json, os, concurrent.futures
+import json, os, subprocess, concurrent.futures
 from .. import core
 
 ID = "C05"
@@ -51,14 +51,15 @@ def script_stop_many(n, t):
 
 
 def script_partition(n, t):
-    """partition into {t-1 nodes} | {rest} for 3 rounds, then heal"""
+    """partition into {t-1 nodes} | {rest} for 6 rounds (more than the partial-cache window, so that only the sync
+    launched by the tick's gap test can bring the minority back), then heal"""
     g = [1 if i < t - 1 else 0 for i in range(n)]
-    return steps(2 * K) + ["part " + " ".join(map(str, g))] + steps(3 * K) + ["part " + " ".join(["0"] * n)] + steps(4 * K)
+    return steps(2 * K) + ["part " + " ".join(map(str, g))] + steps(6 * K) + ["part " + " ".join(["0"] * n)] + steps(7 * K)
 
 
 def script_one_down(n, t):
     """one node down for 4 rounds, then Catchup"""
-    return steps(2 * K) + [f"stop {n - 1}"] + steps(4 * K + 2) + [f"restart {n - 1}"] + steps(3 * K)
+    return steps(2 * K) + [f"stop {n - 1}"] + steps(4 * K + 2) + [f"restart {n - 1}"] + steps(5 * K)
 
 
 QUICK_SCRIPTS = [("normal", script_normal), ("stop-many", script_stop_many), ("partition", script_partition), ("one-down", script_one_down)]
@@ -151,7 +152,13 @@ def run_impl(n, t, scheme, backend, ops, hints, maxwait, quiet):
             lines.append(op)
     lines.append("dump")
     env = dict(os.environ, GOMEMLIMIT="4GiB")
-    rc, out, err = core.run_lines(h, ["net", str(maxwait), str(quiet)], lines, timeout=900, env=env)
+    try:
+        rc, out, err = core.run_lines(h, ["net", str(maxwait), str(quiet)], lines, timeout=120 + len(lines) * (maxwait + 1000) // 1000, env=env)
+    except subprocess.TimeoutExpired as e:
+        got = (e.stdout or b"").decode() if isinstance(e.stdout, bytes) else (e.stdout or "")
+        done = [l for l in got.splitlines() if l.strip()]
+        snaps = [parse_snap(l) for l in done]
+        return [s_ for s_ in snaps if s_], "dump", ["HANG after %d of %d ops (last op: %s)" % (len(done), len(lines), lines[min(len(done), len(lines) - 1)])]
     if rc != 0 or len(out) != len(lines):
         raise core.Broken("harness:net", f"exit {rc}, {len(out)}/{len(lines)} lines: {err[-800:]} {out[-2:]}")
     snaps = [parse_snap(l) for l in out[:-1]]
@@ -295,7 +302,7 @@ def run_case(case, maxwait, quiet):
     out["snaps"] = snaps
     out["dump"] = dump
     if bad:
-        out.update(ok=False, rule="harness", why="unexpected harness output: " + bad[0][:200], model=[])
+        out.update(ok=False, rule="hang" if bad[0].startswith("HANG") else "harness", why="the implementation run did not complete: " + bad[0][:200], model=[])
         return out
     viol = oracle_p5(n, t, ops, snaps, dump)
     out["model"] = []
@@ -349,36 +356,44 @@ def configs(tier, rng):
     return cases
 
 
+def run_cases(cases, tier):
+    maxwait, quiet = (6000, 60) if tier == "quick" else (8000, 80)
+    workers = 4 if tier == "quick" else 6
+    with concurrent.futures.ThreadPoolExecutor(max_workers=workers) as ex:
+        futs = [ex.submit(run_with_retries, c, maxwait, quiet) for c in cases]
+        return [f.result() for f in futs]
+
+
 def explore(ctx, res):
     rng = ctx["rng"]
-    tier = "thorough" if ctx["deep"] else ctx["tier"]
-    cases = []
+    corpus = []
     cdir = os.path.join(core.VERIF, "corpus", "C05")
     if os.path.isdir(cdir):
         for f in sorted(os.listdir(cdir)):
             if f.endswith(".json"):
                 c = json.load(open(os.path.join(cdir, f)))
                 c["name"] = "corpus:" + f
-                cases.append(c)
+                corpus.append(c)
     if ctx.get("replay"):
         rp = json.load(open(ctx["replay"]))
-        cases = [dict(rp["case"], ops=rp["ops"])]
+        plan = [("quick", [dict(rp["case"], ops=rp["ops"])])]
+    elif ctx["deep"]:
+        # something upstream broke (proof, translator, build): look for a concrete failing input, cheapest scripts first
+        plan = [("quick", corpus + configs("quick", rng)), ("thorough", configs("thorough", rng))]
     else:
-        cases += configs(tier, rng)
-    for c in cases:
-        c["model_ok"] = ctx["model_ok"]
-    maxwait, quiet = (6000, 60) if tier == "quick" else (8000, 80)
-    workers = 4 if tier == "quick" else 6
+        plan = [(ctx["tier"], corpus + configs(ctx["tier"], rng))]
     results = []
-    with concurrent.futures.ThreadPoolExecutor(max_workers=workers) as ex:
-        futs = [ex.submit(run_with_retries, c, maxwait, quiet) for c in cases]
-        for f in futs:
-            results.append(f.result())
-    total_ops = total_attempts = failed_attempts = validated = exact = lines = 0
+    for tier, cases in plan:
+        for c in cases:
+            c["model_ok"] = ctx["model_ok"]
+        results += run_cases(cases, tier)
+        if any((not r["ok"]) and r["reproducible"] for r in results):
+            break
+    total_ops = total_attempts = validated = exact = lines = 0
     nontriv, dist, samples = set(), {}, []
+    failing = []
     for r in results:
         total_attempts += r["attempts"]
-        failed_attempts += len(r["failed_attempts"])
         total_ops += (len(r["ops"]) + 2) * r["attempts"]
         snaps = r.get("snaps") or []
         incs = sum(1 for a, b in zip(snaps, snaps[1:]) if a and b and b["h"] != a["h"])
@@ -392,13 +407,23 @@ def explore(ctx, res):
         exact += r.get("exact", 0)
         lines += len(r["ops"]) + 1 if r.get("model") else 0
         if not r["ok"] and r["reproducible"]:
-            obs = [f"r={s['r']} h={s['h']} up={[int(u) for u in s['up']]} g={s['g']}" for s in snaps if s]
-            sig = f"net:n{r['case']['n']}t{r['case']['t']}:{r['case']['name'].split('-')[0] if r['case']['name'].startswith('random') else r['case']['name']}:{r['rule']}"
-            res.report(sig, {"engine": "net", "kind": "impl-violates" if r["rule"].startswith("P5") else "model-impl-diverge",
-                             "case": r["case"], "ops": r["ops"], "observed": obs,
-                             "expected": [m["raw"] for m in r.get("model", [])], "oracle": f"{r['rule']}: {r['why']}",
-                             "attempts": r["attempts"], "all_attempts": r["failed_attempts"]},
-                       found=True)
+            failing.append(r)
+    # report the shortest witness of every distinct signature (at most 4 replays)
+    failing.sort(key=lambda r: len(r["ops"]))
+    seen = set()
+    for r in failing:
+        snaps = r.get("snaps") or []
+        obs = [f"r={s['r']} h={s['h']} up={[int(u) for u in s['up']]} g={s['g']}" for s in snaps if s]
+        nm = r["case"]["name"]
+        sig = f"net:n{r['case']['n']}t{r['case']['t']}:{'random' if nm.startswith('random') else nm}:{r['rule']}"
+        if sig in seen or len(seen) >= 4:
+            continue
+        seen.add(sig)
+        res.report(sig, {"engine": "net", "kind": "impl-violates" if r["rule"].startswith("P5") else "model-impl-diverge",
+                         "case": r["case"], "ops": r["ops"], "observed": obs,
+                         "expected": [m["raw"] for m in r.get("model", [])], "oracle": f"{r['rule']}: {r['why']}",
+                         "attempts": r["attempts"], "all_attempts": r["failed_attempts"],
+                         "other_failing_cases": len(failing) - 1}, found=True)
     for r in results[:3]:
         snaps = r.get("snaps") or []
         samples.append({"case": r["case"], "ops": r["ops"][:14], "heads": [s["h"] for s in snaps[:15] if s],
@@ -410,7 +435,8 @@ def explore(ctx, res):
                        "(all attempts); non-trivial = distinct (network, script) whose logged head vector changed in at least 3 ops")
     res.cov["distribution"] = {"ops": dist, "cases": len(results), "sub_steps_per_period": K, "settle_budget_sub_steps": SLACK,
                                "networks": sorted(set(f"n{r['case']['n']}t{r['case']['t']}:{r['case']['scheme']}:{r['case']['backend']}" for r in results))}
-    res.cov["flake"] = {"attempts": total_attempts, "failed_attempts_that_did_not_reproduce": sum(len(r["failed_attempts"]) for r in results if not r["reproducible"]),
-                        "rate": round(sum(len(r["failed_attempts"]) for r in results if not r["reproducible"]) / max(1, total_attempts), 4),
+    nonrepro = sum(len(r["failed_attempts"]) for r in results if not r["reproducible"])
+    res.cov["flake"] = {"attempts": total_attempts, "failed_attempts_that_did_not_reproduce": nonrepro,
+                        "rate": round(nonrepro / max(1, total_attempts), 4),
                         "details": [{"case": r["case"], "failed": r["failed_attempts"]} for r in results if r["failed_attempts"] and not r["reproducible"]][:10]}
     res.cov["model_exact_match"] = {"logged_lines": lines, "lines_where_heads_equal_model": exact}
